@@ -30,7 +30,7 @@ TIERS = {
     "quick": {"runs": 6000, "chunk": 100, "selftest": 64, "minimise_s": 30},
     "thorough": {"budget_s": 600, "chunk": 400, "selftest": 512, "minimise_s": 90},
 }
-PROBES = ["dependency_on_excluded_field", "fixed_tuple_offending", "set_with_fault", "dict_key_fault", "required_field_excluded", "typed_addition_fault", "varargs_fault",
+PROBES = ["union_of_containers", "dependency_on_excluded_field", "fixed_tuple_offending", "set_with_fault", "dict_key_fault", "required_field_excluded", "typed_addition_fault", "varargs_fault",
           "rule_leaf_fault", "length_bound_after_exclusion", "mode_required_field", "dependency_missing_for_kept_field", "excluded_field_with_dependency",
           "data_class_elements", "property_output_offending"]
 POL = ["throw", "exclude", "preserve"]
@@ -58,7 +58,22 @@ def generate(rng, tier):
         return ["opt", t_] if rng.random() < 0.25 else t_
     if kind == "rule":
         t = maybe_opt(tdsl.gen_container(rng, rng.choice([1, 1, 1, 2, 2, 3]), rule_leaves=RL, dc_items=True))
-        if rng.random() < 0.1:
+        if rng.random() < 0.12:
+            # a union of two containers over different leaf kinds: which alternative fits must not depend on the policies.
+            # (no_data_loss=True: the library then has only its strict trial pass before the pass that obeys the policies)
+            s1, s2 = rng.sample(["leaf", "leaf2", "rleaf"], 2)
+            cont = rng.choice(["list", "tup"])
+            t = ["union", [cont, [s1]], [cont, [s2]]]
+            items = []
+            for i in range(rng.choice([1, 2, 2, 3])):
+                pid = pool.next()
+                for s_ in (s1, s2):
+                    positions.append(([i], tdsl.RULE_ORIGIN.get(s_, s_), pid))
+                items.append({"$r": pid})
+            plan["type"] = t
+            plan["input"] = items
+            plan["ndl"] = rng.random() < 0.7
+        elif rng.random() < 0.1:
             # a fixed-length tuple whose surplus items are typed by Options(addition=...): only 'preserve' is judged there
             t = ["ftup"] + [tdsl.gen_scalar(rng, rule_leaves=RL) for _ in range(rng.choice([1, 2, 2, 3]))]
             plan["tup_addition"] = rng.choice(["leaf", "leaf", True, None])
@@ -160,6 +175,8 @@ def generate(rng, tier):
 
 def _options(plan, **extra):
     import utype
+    if plan.get("ndl"):
+        extra = dict(extra, no_data_loss=True)
     return utype.Options(**plan["policies"], **extra)
 
 
@@ -181,7 +198,9 @@ def build(plan, strict=False):
         extra = {}
         if plan.get("tup_addition") is not None:
             extra["addition"] = faults.Leaf if plan["tup_addition"] == "leaf" else plan["tup_addition"]
-        opts = _strict_options(**extra) if strict else _options(plan, **extra)
+        if plan.get("ndl"):
+            extra["no_data_loss"] = True
+        opts = _strict_options(**extra) if strict else _options(plan, **{k_: v_ for k_, v_ in extra.items() if k_ != "no_data_loss"})
         return lambda v: utype.type_transform(v, T, options=opts)
     if kind in ("schema", "dataclass"):
         ns = {"__annotations__": {}, "__module__": "verif_c11", "__qualname__": "M"}
@@ -325,6 +344,18 @@ def ref(t, v, pol):
     if tdsl.is_scalar(t) or t == ["disc"]:
         return _scalar_alone(t, v)
     k = t[0]
+    if k == "union":
+        # the first alternative that fits as it is (no element offending) wins; only when none does, the policies apply
+        strict = {"invalid_items": "throw", "invalid_keys": "throw", "invalid_values": "throw"}
+        for b in t[1:]:
+            r = ref(b, v, strict)
+            if r is not FAIL:
+                return r
+        for b in t[1:]:
+            r = ref(b, v, pol)
+            if r is not FAIL:
+                return r
+        return FAIL
     if k == "opt":
         return None if v is None else ref(t[1], v, pol)
     if k in ("list", "set", "fset", "tup"):
@@ -646,6 +677,8 @@ def execute(plan):
         res.stats["probe:rule_leaf_fault"] += 1
     if fired and (plan.get("max_len") or any(f.get("max_len") for f in plan.get("fields", []))) and "exclude" in pols:
         res.stats["probe:length_bound_after_exclusion"] += 1
+    if plan["kind"] == "rule" and plan["type"][0] == "union" and fired:
+        res.stats["probe:union_of_containers"] += 1
     if '"dcitem"' in kernel.jdump(plan.get("type") or plan.get("fields") or ""):
         res.stats["probe:data_class_elements"] += 1
     if fired and plan.get("mode") == "a" and any(f["required"] == "mode" for f in plan.get("fields", [])):
